@@ -229,7 +229,7 @@ pub fn plan(tier: &str) -> Plan {
     scs.push(Sc { n: 6, late_at: 2, stop_after: 1, slow: false, publisher_yields: false, instant: false, solo: true, twice: false });
     scs.push(Sc { n: 6, late_at: 4, stop_after: 2, slow: false, publisher_yields: true, instant: false, solo: true, twice: false });
     // one actor, two subscriptions with different converters
-    scs.push(Sc { n: 6, late_at: 2, stop_after: 3, slow: false, publisher_yields: true, instant: false, solo: false, twice: true });
+    scs.push(Sc { n: 4, late_at: 1, stop_after: 2, slow: false, publisher_yields: true, instant: false, solo: false, twice: true });
     scs.push(Sc { n: 6, late_at: 3, stop_after: 1, slow: false, publisher_yields: false, instant: false, solo: false, twice: true });
     // a long stream: subscribers of the default port lag behind (buffer 10)
     scs.push(Sc { n: 25, late_at: 12, stop_after: 4, slow: true, publisher_yields: false, instant: false, solo: false, twice: false });
